@@ -32,10 +32,11 @@ NHANDLES = 3
 class Rig:
     """One real object of class `kind` plus recording items; performs calls and logs events."""
 
-    def __init__(self, kind: str, log, falsy: bool = False):
+    def __init__(self, kind: str, log, falsy: bool = False, raising: bool = False):
         from reactivex import disposable as D
         self.kind, self.log = kind, log
         rig = self
+        self.raising = raising      # the action / the wrapped resource's dispose raises (after being logged), every time it runs
 
         class Item:
             def __init__(self, i):
@@ -43,6 +44,8 @@ class Rig:
 
             def dispose(self):
                 rig.log(e="disp", item=self.i)
+                if rig.raising:
+                    raise RuntimeError("dispose action raises")
 
         class FalsyItem(D.CompositeDisposable):
             """an empty CompositeDisposable is falsy (len 0): containers must not care"""
@@ -59,7 +62,11 @@ class Rig:
         self.items = {i: mk(i) for i in range(0, NITEMS + 1)}
         self.handles: Dict[int, Any] = {}
         if kind == "disposable":
-            self.obj = D.Disposable(lambda: rig.log(e="disp", item=0))
+            def action():
+                rig.log(e="disp", item=0)
+                if rig.raising:
+                    raise RuntimeError("dispose action raises")
+            self.obj = D.Disposable(action)
         elif kind == "boolean":
             self.obj = D.BooleanDisposable()
         elif kind == "composite":
@@ -103,7 +110,10 @@ class Rig:
                 except Exception:  # the documented refusal of a second assignment
                     res = "raise"
             elif op == "run":
-                self.sched.start()
+                try:
+                    self.sched.start()
+                finally:
+                    self.sched._is_enabled = False     # an exception out of the run loop leaves the virtual-time scheduler "enabled"
             elif op == "get":
                 self.handles[arg] = o.disposable
             elif op == "ddep":
@@ -132,7 +142,8 @@ def seq_export(ck, kind: str, maxcalls: int, items: int, timeout: int = 900):
 
 
 def seq_judge(args) -> Optional[Dict[str, Any]]:
-    kind, hist, falsy = args
+    kind, hist, falsy = args[:3]
+    raising = len(args) > 3 and args[3]
     counts: Dict[int, int] = {}
     events: List[Dict[str, Any]] = []
 
@@ -140,10 +151,15 @@ def seq_judge(args) -> Optional[Dict[str, Any]]:
         events.append(ev)
         if ev["e"] == "disp":
             counts[ev["item"]] = counts.get(ev["item"], 0) + 1
-    rig = Rig(kind, log, falsy)
+    rig = Rig(kind, log, falsy, raising)
+    prev_total = 0
     for k, step in enumerate(hist):
         res = rig.call(step["op"], step["arg"])
         exp_dc = {int(i): n for i, n in step["dc"].items()}
+        if raising:     # the call in which the action / the resource's dispose runs lets its exception out; nothing else changes
+            if sum(exp_dc.values()) > prev_total:
+                step = dict(step, res="exc:RuntimeError")
+            prev_total = sum(exp_dc.values())
         got_dc = {i: counts.get(i, 0) for i in exp_dc}
         why = None
         if res != step["res"]:
@@ -157,7 +173,7 @@ def seq_judge(args) -> Optional[Dict[str, Any]]:
         if why:
             twice = [i for i, n in got_dc.items() if n > 1]
             never = [i for i, n in got_dc.items() if n < exp_dc[i]]
-            return {"engine": "disp-seq", "kind": kind, "falsy_items": falsy, "history": [[s["op"], s["arg"]] for s in hist],
+            return {"engine": "disp-seq", "kind": kind, "falsy_items": falsy, "raising_action": raising, "history": [[s["op"], s["arg"]] for s in hist],
                     "step": k, "op": step["op"], "why": why, "expected": step, "observed": {"res": res, "dc": got_dc},
                     "failure": "double_dispose" if twice else ("leak" if never else "result")}
     return None
@@ -425,6 +441,8 @@ def run_property(pid: str, kinds: List[str], tier: str, rule: str, assumptions: 
         jobs = [(kind, h, False) for h in hists]
         if kind in ("composite", "serial", "single", "multiple", "scheduled", "refcount"):   # wrapped / held resources that are falsy
             jobs += [(kind, h, True) for h in hists]
+        if kind in ("disposable", "scheduled"):      # a raising action / resource: still at most once, still reported disposed
+            jobs += [(kind, h, False, True) for h in hists]
         for f in core.parallel_map(seq_judge, jobs, procs=8, chunk=500):
             if f:
                 ck.fail(f)
